@@ -289,6 +289,12 @@ def _check(ctx):
         if len(lines) >= 150000:
             flush_model(ctx, lines, pending)
     check_decoding(ctx)
+    # every mutation class from a fixed stream, first on every seed
+    for data, kind, response in H.deterministic_mutants(8 if ctx.quick else 16):
+        cfg = H.Cfg(response=response, lax=response)
+        one_stream(ctx, rng, cfg, data, "fixed:" + kind, lines, pending)
+        if len(lines) >= 150000:
+            flush_model(ctx, lines, pending)
     n_streams = 600 if ctx.quick else 12000
     for i in range(n_streams):
         mode = rng.random()
